@@ -195,7 +195,18 @@ void SHA1::process(const void* data, std::uint32_t size)
 
 void SHA1::process(tlx::string_view str)
 {
-    return process(str.data(), str.size());
+    // process(const void*, std::uint32_t) takes a 32-bit size: feed longer
+    // strings in pieces (a multiple of the block size) instead of truncating
+    const char* data = str.data();
+    size_t size = str.size();
+    const size_t piece = size_t(1) << 30;
+    while (size > piece)
+    {
+        process(data, static_cast<std::uint32_t>(piece));
+        data += piece;
+        size -= piece;
+    }
+    process(data, static_cast<std::uint32_t>(size));
 }
 
 void SHA1::finalize(void* digest)
